@@ -31,6 +31,9 @@ var c08Results = []presult{
 	{"X", [][3]string{{"extra", "e", "f"}}, []string{"u1"}},
 	{"X/k=1-4", [][3]string{{"goos", "linux", "f"}}, []string{"u1"}},
 	{"X", [][3]string{{"goos", "plan9", "f"}}, []string{"u1"}}, // same length as "linux": in-place value reuse
+	// the same keys as tool-internal configuration (a label installed by the tool, a key marked internal through
+	// the API): whether a key is file configuration is a property of each result, not of the key
+	{"X", [][3]string{{"goos", "linux", "i"}, {"extra", "e", "i"}}, []string{"u1"}},
 }
 
 var c08Exprs = []string{".config", ".fullname", ".name", "/k", "/gomaxprocs", "goos", "pkg", ".file"}
@@ -51,6 +54,9 @@ type resultSource struct {
 func streamText(stream []int) string {
 	var b strings.Builder
 	cur := map[string]string{}
+	// keys the tool set as internal configuration on the reader's result after the previous line (see next):
+	// the text deletes them again before the next result, which re-adds them as file or internal as it needs
+	internalSet := map[string]bool{}
 	for i, ri := range stream {
 		r := c08Results[ri]
 		want := map[string]string{}
@@ -63,6 +69,17 @@ func streamText(stream []int) string {
 		for k := range cur {
 			if _, ok := want[k]; !ok {
 				gone = append(gone, k)
+			}
+		}
+		for k := range internalSet {
+			if _, ok := cur[k]; !ok {
+				gone = append(gone, k)
+			}
+			delete(internalSet, k)
+		}
+		for _, c := range r.Cfg {
+			if c[2] == "i" && c[0] != ".file" {
+				internalSet[c[0]] = true
 			}
 		}
 		sort.Strings(gone)
@@ -106,6 +123,11 @@ func (s *resultSource) next(r presult) (*benchfmt.Result, string) {
 	}
 	// tool-internal keys are set by the tool on the reader's result
 	res.SetConfig(".file", r.cfg(".file"))
+	for _, c := range r.Cfg {
+		if c[2] == "i" && c[0] != ".file" {
+			res.SetConfig(c[0], c[1])
+		}
+	}
 	if string(res.Name) != r.Name {
 		return nil, fmt.Sprintf("reader stream out of step: %q vs %q", res.Name, r.Name)
 	}
